@@ -841,12 +841,39 @@ class Normalizer:
 
     # ------------------------------------------------------------------------------------------ N10
     def equivalent_calls(self, f: Func) -> t.Optional[FuncNode]:
-        """reversed(range(a, b)) -> range(b - 1, a - 1, -1);  divmod(a, b)[0] -> a // b;  divmod(a, b)[1] -> a % b  (pure a, b)."""
+        """typing.cast(T, x) -> x;  reversed(range(a, b)) -> range(b - 1, a - 1, -1);  divmod(a, b)[0] -> a // b;  divmod(a, b)[1] -> a % b  (pure a, b)."""
         hit = [False]
+        repo = self.repo
+
+        def class_of(name: str) -> t.Optional[Cls]:
+            """The repository class of a local: annotated parameter, or a single definition `name = C(...)` / `name = C.unpack(...)`."""
+            for a in _params(f.node):
+                if a.arg == name and isinstance(a.annotation, ast.Name):
+                    r = repo.resolve_name(a.annotation.id, f.mod)
+                    return r if isinstance(r, Cls) else None
+            defs = [n for n in _walk_no_scopes(f.node) if isinstance(n, (ast.Assign, ast.AnnAssign)) and any(isinstance(x, ast.Name) and x.id == name for tg in (n.targets if isinstance(n, ast.Assign) else [n.target]) for x in ast.walk(tg))]
+            if len(defs) != 1 or not isinstance(defs[0].value, ast.Call):
+                return None
+            tg0 = defs[0].targets[0] if isinstance(defs[0], ast.Assign) else defs[0].target
+            if not isinstance(tg0, ast.Name):
+                return None
+            fn0 = defs[0].value.func
+            if isinstance(fn0, ast.Attribute) and fn0.attr == "unpack":
+                fn0 = fn0.value
+            if isinstance(fn0, ast.Name):
+                r = repo.resolve_name(fn0.id, f.mod)
+                if isinstance(r, Cls) and (fn0 is defs[0].value.func or "unpack" in r.methods):
+                    return r
+            return None
 
         class T(ast.NodeTransformer):
             def visit_Call(self, node: ast.Call) -> ast.AST:
                 self.generic_visit(node)
+                node = t.cast(ast.Call, self.visit_Call2(node))
+                fn_ = node.func
+                if len(node.args) == 2 and not node.keywords and (isinstance(fn_, ast.Name) and fn_.id == "cast" or isinstance(fn_, ast.Attribute) and fn_.attr == "cast" and isinstance(fn_.value, ast.Name) and fn_.value.id in ("t", "typing")):
+                    hit[0] = True
+                    return node.args[1]  # typing.cast is the identity at run time
                 if isinstance(node.func, ast.Name) and node.func.id == "reversed" and len(node.args) == 1 and not node.keywords:
                     r = node.args[0]
                     if isinstance(r, ast.Call) and isinstance(r.func, ast.Name) and r.func.id == "range" and 1 <= len(r.args) <= 2 and not r.keywords and all(_is_pure(a) or isinstance(a, ast.Call) and isinstance(a.func, ast.Name) and a.func.id == "len" for a in r.args):
@@ -856,6 +883,25 @@ class Normalizer:
                         new = ast.Call(func=ast.Name(id="range", ctx=ast.Load()), args=[ast.BinOp(left=hi, op=ast.Sub(), right=ast.Constant(value=1)), ast.BinOp(left=lo, op=ast.Sub(), right=ast.Constant(value=1)), ast.UnaryOp(op=ast.USub(), operand=ast.Constant(value=1))], keywords=[])
                         return ast.copy_location(new, node)
                 return node
+
+            def visit_Call2(self, node: ast.Call) -> ast.AST:
+                """dataclasses.replace(X, a=v) -> C(f1=X.f1, ..., a=v) when the class C of the local X is known."""
+                fn_ = node.func
+                if not (isinstance(fn_, ast.Attribute) and fn_.attr == "replace" and isinstance(fn_.value, ast.Name) and fn_.value.id == "dataclasses" or isinstance(fn_, ast.Name) and fn_.id == "replace" and f.mod.imports.get("replace") == ("ext", "dataclasses.replace")):
+                    return node
+                if len(node.args) != 1 or not isinstance(node.args[0], ast.Name) or any(k.arg is None for k in node.keywords):
+                    return node
+                cls = class_of(node.args[0].id)
+                if cls is None or not cls.is_dataclass:
+                    return node
+                fields = [p.name for p in cls.init_params()]
+                given = {k.arg: k.value for k in node.keywords}
+                if not set(given) <= set(fields):
+                    return node
+                hit[0] = True
+                kws = [ast.keyword(arg=n_, value=given.get(n_) or ast.Attribute(value=ast.Name(id=node.args[0].id, ctx=ast.Load()), attr=n_, ctx=ast.Load())) for n_ in fields]
+                new = ast.Call(func=ast.Name(id=cls.name, ctx=ast.Load()), args=[], keywords=kws)
+                return ast.fix_missing_locations(ast.copy_location(new, node))
 
             def visit_Subscript(self, node: ast.Subscript) -> ast.AST:
                 self.generic_visit(node)
